@@ -7,6 +7,7 @@ import PcfgVerif.Drive.EditRules
 import PcfgVerif.Drive.Reader
 import PcfgVerif.Drive.Probs
 import PcfgVerif.Drive.OmenTrainer
+import PcfgVerif.Drive.Session
 /-! Line-protocol driver: one operation per input line, one canonical answer line each. -/
 
 structure DState where
@@ -18,6 +19,7 @@ structure DState where
   er : Drive.EditRules.St := {}
   rd : Drive.Reader.St := {}
   ot : Drive.OmenTrainer.St := {}
+  ss : Drive.Session.St := {}
 
 def dispatch (s : DState) (line : String) : DState × String :=
   let toks := (line.splitOn " ").filter (· ≠ "")
@@ -49,6 +51,9 @@ def dispatch (s : DState) (line : String) : DState × String :=
     else if cmd.startsWith "ot." then
       let (p, out) := Drive.OmenTrainer.step s.ot toks
       ({ s with ot := p }, out)
+    else if cmd.startsWith "ss." then
+      let (p, out) := Drive.Session.step s.ss toks
+      ({ s with ss := p }, out)
     else (s, "bad-op")
 
 partial def loop (h : IO.FS.Stream) (out : IO.FS.Stream) (s : DState) : IO Unit := do
